@@ -751,3 +751,37 @@ def stored_value_and_default_are_both_refitted(ctx):
     ctx.check(ok, f'{fin.qualname}:default and value are refitted independently', tv_[0].ast, "the test of 'value' is reached on both sides of the test of 'default'",
               f"`{src(tv_[0].ast)}` is only reached when no default is stored: a stored value is not converted with the (narrowed) datatype while a default exists - "
               'it is emitted although the described datainfo does not accept it', fin)
+
+
+@rule('C06.R14', min_instances=1)
+def a_described_empty_optional_list_is_rebuilt_as_empty(ctx):
+    """the rebuild side of the description (the 'struct' entry of DATATYPES and the functions it uses): `optional` from the
+    datainfo is handed to StructOf as it is, replaced by "all members" only when it is None (key absent).  `optional or
+    list(subtypes)` rebuilds an explicit `"optional": []` as all-optional: the described datainfo accepts payloads lacking members
+    that the node refuses"""
+    m = ctx.m
+    mod = m.modules.get('frappy.datatypes')
+    n = 0
+    hits = []
+    scopes = [fi.node for q, fi in m.functions.items() if fi.module is mod and fi.cls is None]
+    scopes += [x for x in ast.walk(mod.tree) if isinstance(x, ast.Lambda)]
+    for sc in scopes:
+        args = sc.args
+        if 'optional' not in {a.arg for a in args.args + args.kwonlyargs}:
+            continue
+        n += 1
+        body = sc.body if isinstance(sc.body, list) else [sc.body]
+        for b in body:
+            for x in ast.walk(b):
+                if isinstance(x, ast.BoolOp) and isinstance(x.op, ast.Or) and any(isinstance(v, ast.Name) and v.id == 'optional' for v in x.values[:-1]):
+                    hits.append(x)
+                if isinstance(x, (ast.If, ast.IfExp)):
+                    t = x.test
+                    while isinstance(t, ast.UnaryOp) and isinstance(t.op, ast.Not):
+                        t = t.operand
+                    if isinstance(t, ast.Name) and t.id == 'optional':
+                        hits.append(x.test)
+    ctx.check(not hits, 'frappy.datatypes:rebuild keeps an empty optional list', hits[0] if hits else None, f'{n} rebuild functions with an `optional` parameter, none truth tests it',
+              f'`{src(hits[0]) if hits else ""}` decides by the truth value of `optional`: the described `"optional": []` (no member may be left out) is rebuilt as "every member optional"')
+    if not n:
+        raise AnchorMissing("no rebuild function / lambda with an `optional` parameter found in frappy.datatypes")
